@@ -368,7 +368,11 @@ func GenProject(t *tape.Tape, o Options) *Project {
 		pkg := g.classes[t.Pick(len(g.classes))].pkg
 		name := g.pick([]string{"OrderStatus", "Colour", "Mode"})
 		var b []string
-		b = append(b, "package "+pkg+";", "", "public enum "+name+" {", "    OPEN(\"o\"), CLOSED(\"c\");", "", "    private final String label;", "")
+		b = append(b, "package "+pkg+";", "")
+		if t.Bool(1, 2) {
+			b = append(b, g.pick([]string{"@Deprecated", "@SuppressWarnings(\"unused\")", "@Generated(\"tool\")"}))
+		}
+		b = append(b, "public enum "+name+" {", "    OPEN(\"o\"), CLOSED(\"c\");", "", "    private final String label;", "")
 		b = append(b, "    "+name+"(String label) {", "        this.label = label;", "    }", "")
 		if t.Bool(1, 2) {
 			b = append(b, "    @Override")
@@ -377,6 +381,20 @@ func GenProject(t *tape.Tape, o Options) *Project {
 		f := &JFile{ID: fmt.Sprintf("f%d", len(p.Files)), Pkg: pkg, Name: name, Kind: "enum"}
 		f.Path = strings.ReplaceAll(pkg, ".", "/") + "/" + name + ".java"
 		f.Text = strings.Join(b, "\n") + "\n"
+		p.Files = append(p.Files, f)
+	}
+	if o.Enums && t.Bool(1, 3) {
+		// an annotation type: annotated itself, no class or interface body
+		pkg := g.classes[t.Pick(len(g.classes))].pkg
+		name := g.pick([]string{"Audited", "ApiController", "Marker"})
+		text := "package " + pkg + ";\n\n@Retention(RetentionPolicy.RUNTIME)\n@Target(ElementType.TYPE)\n"
+		if o.Controllers && t.Bool(1, 2) {
+			text += "@RestController\n"
+		}
+		text += "public @interface " + name + " {\n    String value() default \"\";\n}\n"
+		f := &JFile{ID: fmt.Sprintf("f%d", len(p.Files)), Pkg: pkg, Name: name, Kind: "annotation"}
+		f.Path = strings.ReplaceAll(pkg, ".", "/") + "/" + name + ".java"
+		f.Text = text
 		p.Files = append(p.Files, f)
 	}
 	return p
@@ -669,7 +687,9 @@ func (g *gctx) genFile(fi int) *JFile {
 			body := ""
 			if len(m.Params) > 0 && t.Bool(1, 2) {
 				k := t.Pick(len(m.Params))
-				switch t.Pick(4) {
+				switch t.Pick(5) {
+				case 4:
+					m.Params[k].Annotations = append(m.Params[k].Annotations, "@RequestBody(required = false)")
 				case 0:
 					m.Params[k].Annotations = append(m.Params[k].Annotations, "@RequestBody", "@Valid")
 				case 1:
